@@ -203,4 +203,95 @@ Section Proc.
           rewrite (F q Pq). destruct (path_eqb q L) eqn:EqL; [|reflexivity].
           apply path_eqb_spec in EqL. subst q. exact LD.
   Qed.
+
+  (* ---------- all processes ---------- *)
+  Lemma proc_step_ext L l1 l2 pd q : l1 q = l2 q -> proc_step L l1 pd q = proc_step L l2 pd q.
+  Proof. intros H. unfold proc_step. rewrite H. reflexivity. Qed.
+
+  Lemma fold_proc_step_ext L procs : forall l1 l2 q, l1 q = l2 q ->
+    fold_left (proc_step L) procs l1 q = fold_left (proc_step L) procs l2 q.
+  Proof.
+    induction procs as [|pd procs IH]; intros l1 l2 q H; cbn [fold_left]; [exact H|].
+    apply IH. apply proc_step_ext, H.
+  Qed.
+
+  Lemma is_prefix_trans_false (L : path) pn q : is_prefix L q = false -> is_prefix (L ++ [pn]) q = false.
+  Proof.
+    intros H. destruct (is_prefix (L ++ [pn]) q) eqn:E; [|reflexivity].
+    apply is_prefix_spec in E as [r ->]. rewrite <- app_assoc, is_prefix_app in H. discriminate.
+  Qed.
+
+  Lemma fold_proc_step_outside L procs : forall look q, is_prefix L q = false ->
+    fold_left (proc_step L) procs look q = look q.
+  Proof.
+    induction procs as [|pd procs IH]; intros look q H; cbn [fold_left]; [reflexivity|].
+    rewrite (IH _ q H). unfold proc_step. rewrite (is_prefix_trans_false L (fst pd) q H).
+    replace (path_eqb q L) with false; [destruct (delta_is_empty (snd pd)); reflexivity|].
+    symmetry. apply path_eqb_neq. intros ->. rewrite is_prefix_refl in H. discriminate.
+  Qed.
+
+  Lemma sibling_dirs (L : path) a c r : a <> c -> is_prefix (L ++ [a]) ((L ++ [c]) ++ r) = false.
+  Proof.
+    intros Hac. destruct (is_prefix (L ++ [a]) ((L ++ [c]) ++ r)) eqn:E; [|reflexivity]. exfalso.
+    apply is_prefix_spec in E as [r2 E]. rewrite <- !app_assoc in E. apply app_inv_head in E. cbn in E. inversion E. congruence.
+  Qed.
+
+  Theorem write_procs dir : forall procs s,
+    let L := dir ++ [n_env_launch] in
+    fs_inv s dir -> launch_state s L -> NoDup (map fst procs) ->
+    (forall pn pd, In (pn, pd) procs -> valid_name pn = true /\ files_ok order wtab pd /\ pget (L ++ [pn]) s = None) ->
+    exists s', iterM (fun pd => write_env_dir order wtab (snd pd) (dir ++ [n_env_launch; fst pd])) procs s = (s', Ok tt) /\
+               fs_inv s' dir /\ launch_state s' L /\
+               forall q, pget q s' = fold_left (proc_step L) procs (fun q => pget q s) q.
+  Proof.
+    induction procs as [|[pn pd] procs IH]; intros s L I0 LS ND Hall.
+    - exists s. split; [reflexivity|]. split; [exact I0|]. split; [exact LS|reflexivity].
+    - cbn [map fst] in ND. inversion ND as [|a b Ha Hb]; subst.
+      destruct (Hall pn pd (or_introl eq_refl)) as (Hv & FO & Hn).
+      destruct (write_proc_dir dir pn pd s I0 Hv FO LS Hn) as (s1 & E1 & I1 & LS1 & G1). fold L in LS1, G1.
+      destruct (IH s1 I1 LS1 Hb) as (s' & E' & I' & LS' & G').
+      { intros pn' pd' Hin. destruct (Hall pn' pd' (or_intror Hin)) as (Hv' & FO' & Hn'). split; [exact Hv'|]. split; [exact FO'|].
+        fold L. rewrite G1. unfold proc_step. cbn [fst snd].
+        assert (Hne : pn <> pn') by (intros ->; apply Ha; change pn' with (fst (pn', pd')); apply in_map, Hin).
+        destruct (delta_is_empty pd); [exact Hn'|].
+        replace (L ++ [pn']) with ((L ++ [pn']) ++ []) at 1 by apply app_nil_r. rewrite (sibling_dirs L pn pn' [] Hne).
+        replace (path_eqb (L ++ [pn']) L) with false by (symmetry; apply path_eqb_neq, snoc_neq_self). exact Hn'. }
+      exists s'. split; [|split; [exact I'|split; [exact LS'|]]].
+      + cbn [iterM]. unfold bindM at 1. cbn [fst snd]. rewrite E1. exact E'.
+      + intros q. rewrite G'. cbn [fold_left]. apply fold_proc_step_ext. apply G1.
+  Qed.
+
+  (* the find form: which process directory (if any) a path lies in *)
+  Definition nonempty_proc (pd : name * delta) : bool := negb (delta_is_empty (snd pd)).
+
+  Definition launch_spec (dl : delta) (procs : list (name * delta)) (L q : path) : option node :=
+    match find (fun pd => nonempty_proc pd && is_prefix (L ++ [fst pd]) q) procs with
+    | Some pd => env_dir_spec order wtab (snd pd) (L ++ [fst pd]) q
+    | None => if path_eqb q L && existsb nonempty_proc procs then Some (Dir mode_dir_default)
+              else env_dir_spec order wtab dl L q
+    end.
+
+  Lemma fold_proc_step_find L procs : forall look q,
+    NoDup (map fst procs) ->
+    fold_left (proc_step L) procs look q =
+    match find (fun pd => nonempty_proc pd && is_prefix (L ++ [fst pd]) q) procs with
+    | Some pd => env_dir_spec order wtab (snd pd) (L ++ [fst pd]) q
+    | None => if path_eqb q L && existsb nonempty_proc procs then Some (Dir mode_dir_default) else look q
+    end.
+  Proof.
+    induction procs as [|[pn pd] procs IH]; intros look q ND; cbn [fold_left find existsb].
+    - rewrite andb_false_r. reflexivity.
+    - cbn [map fst] in ND. inversion ND as [|a b Ha Hb]; subst. rewrite (IH _ q Hb).
+      destruct (find _ procs) as [[pn' pd']|] eqn:Ef.
+      + (* a later process directory contains q: then this one does not *)
+        apply find_some in Ef as [Hin Hm]. cbn [fst snd] in Hm. apply andb_true_iff in Hm as [_ Hp].
+        assert (Hne : pn <> pn') by (intros ->; apply Ha; change pn' with (fst (pn', pd')); apply in_map, Hin).
+        cbn [fst snd]. apply is_prefix_spec in Hp as [r ->]. rewrite (sibling_dirs L pn pn' r Hne). rewrite andb_false_r. reflexivity.
+      + unfold proc_step, nonempty_proc. cbn [fst snd].
+        destruct (delta_is_empty pd); cbn [negb andb orb]; [reflexivity|].
+        destruct (is_prefix (L ++ [pn]) q) eqn:Pq.
+        * replace (path_eqb q L) with false; [reflexivity|]. symmetry. apply path_eqb_neq. intros ->.
+          apply is_prefix_spec in Pq as [r Pq]. apply (f_equal (@length name)) in Pq. rewrite !app_length in Pq. cbn in Pq. lia.
+        * destruct (path_eqb q L); cbn [andb]; [destruct (existsb _ procs); reflexivity|reflexivity].
+  Qed.
 End Proc.
